@@ -62,7 +62,21 @@ func wktTokens(s string, in *wkbIntern) ([]string, bool) {
 
 // finite floats over the full range, forcing exponent forms and 17-digit mantissas
 func wktFloat(c *ctx) float64 {
-	switch c.rng.Intn(10) {
+	switch c.rng.Intn(11) {
+	case 10:
+		// values that are exactly representable in single precision (coordinates widened from float32): their shortest
+		// float64 spelling is longer than their shortest float32 spelling
+		switch c.rng.Intn(5) {
+		case 0:
+			return float64(float32(c.rng.Float64()*360 - 180))
+		case 1:
+			return float64(float32(0.1)) * float64(1+c.rng.Intn(9))
+		case 2:
+			return math.Ldexp(1, 24+c.rng.Intn(40)) + float64([]int{0, 256, 4096}[c.rng.Intn(3)])*float64(c.rng.Intn(2))
+		case 3:
+			return []float64{math.MaxFloat32, -math.MaxFloat32, math.SmallestNonzeroFloat32, float64(float32(1e-40)), 16777217, 1073741824, 2147483904}[c.rng.Intn(7)]
+		}
+		return float64(float32(c.rng.NormFloat64() * 1e6))
 	case 0:
 		return float64(c.rng.Intn(361) - 180)
 	case 1:
@@ -303,6 +317,16 @@ func init() {
 			}
 			if i%211 == 0 {
 				g = nil
+			}
+			if i%97 == 5 { // collections nested to any depth: 5 .. 40 levels around a small geometry
+				g = orb.Point{wktFloat(c), 1}
+				for d := 5 + c.rng.Intn(36); d > 0; d-- {
+					col := orb.Collection{g}
+					if c.rng.Intn(3) == 0 {
+						col = orb.Collection{orb.Point{2, 3}, g}
+					}
+					g = col
+				}
 			}
 			text, in, gm := c04Event(c, g)
 			if g == nil || in == nil {
